@@ -132,6 +132,8 @@ func checkC10(c *Ctx) {
 	eventDuringFlush(c, "C10")
 	c10RangeChange(c)
 	c10Entries(c)
+	c10Churn(c)
+	c10SecondTransport(c)
 	duplexStress(c, "C10") // events and responses written to one connection at the same time must stay decryptable: a garbled event is a lost event
 	n := c.Pick(32, 1500)
 	type res struct{ line, impl string }
